@@ -74,7 +74,7 @@ type psMsg struct {
 	PBack     int // the SRP session the proof was computed for (see psSRef.Back)
 	PCodeOk   bool
 	// m5
-	Short     int // >=0: short n; -1: sealed
+	Short     int    // >=0: short n; -1: sealed
 	KKind     string // zero ofs rand
 	KS        psSRef
 	NonceOk   bool
@@ -158,15 +158,17 @@ func (m psMsg) tok() string {
 	return m.Kind
 }
 
-func (m psMsg) noop() bool { return m.Kind == "reconnect" || m.Kind == "badmethod" || m.Kind == "badstate" || m.Kind == "malformed" }
+func (m psMsg) noop() bool {
+	return m.Kind == "reconnect" || m.Kind == "badmethod" || m.Kind == "badstate" || m.Kind == "malformed"
+}
 
 // ---- concretisation ------------------------------------------------------------------------------------
 
 type psConn struct {
 	addr    string
-	salt, B []byte // of the latest start response
-	m2s     [][2][]byte // salt, B of every start response of the connection, in order (one SRP session per exchange)
-	unknown bool                  // reconnected: salt and B of the new connection not seen yet
+	salt, B []byte                   // of the latest start response
+	m2s     [][2][]byte              // salt, B of every start response of the connection, in order (one SRP session per exchange)
+	unknown bool                     // reconnected: salt and B of the new connection not seen yet
 	right   map[[2]int]*refSRPClient // (session index, client key a), right setup code
 	wrong   map[[2]int]*refSRPClient
 }
